@@ -181,6 +181,26 @@ def parse_stdout(stdout):
     return view
 
 
+RATING_WORDS = ("None", "Low", "Medium", "High", "Critical")
+
+
+def score_token_ok(tok, score):
+    """'7.5', or '7.5' with a unit / punctuation glued to it ('7.5/10', '7.5,'), never '7.55' or '17.5'."""
+    s = str(score)
+    if tok == s:
+        return True
+    return tok.startswith(s) and not (tok[len(s)].isdigit() or tok[len(s)] == ".")
+
+
+def vector_token_ok(printed, want):
+    """The printed value is the library's string, possibly followed by further columns."""
+    if printed == want:
+        return True
+    if not isinstance(printed, str) or not printed:
+        return False
+    return printed.split()[0] == want
+
+
 def result_text(res):
     """What the CLI printed after the last read (the report, without the interactive dialogue)."""
     chunks = []
@@ -371,21 +391,24 @@ def judge(case_argv, res, ctors, labels=None):
         if len(got) > 1:
             vio.append(violation(PROP, "b", "score-line-twice:%s:%s" % (sel[0], lab.split()[0]), "'%s:' printed twice" % lab))
         toks = got[0]
-        if not toks or toks[0] != str(scores[i]):
+        # the first token is the score (a unit such as "/10" or a comma may be glued to it); further
+        # columns are free, but a token that names a rating must name the library's rating
+        if not toks or not score_token_ok(toks[0], scores[i]):
             vio.append(violation(PROP, "b", "score-differs:%s:%s" % (sel[0], lab.split()[0]),
                                  "%s printed as %r, library says %s [vector=%r]" % (lab, " ".join(toks), scores[i], vector[:80])))
         want_rating = "(%s)" % sevs[i]
-        rating = " ".join(toks[1:])
-        if sel != "2" and rating != want_rating:
+        named = [t for t in toks[1:] if t.strip("()[],;:").capitalize() in RATING_WORDS]
+        rating = " ".join(named)
+        if named and any(t.strip("()[],;:").capitalize() != sevs[i] for t in named):
             vio.append(violation(PROP, "b", "rating-differs:%s:%s" % (sel[0], lab.split()[0]),
                                  "%s rating printed as %r, library says %r [vector=%r]" % (lab, rating, want_rating, vector[:80])))
-        if sel == "2" and rating and rating != want_rating:
-            vio.append(violation(PROP, "b", "rating-differs:2:%s" % lab.split()[0],
-                                 "%s rating printed as %r, library says %r" % (lab, rating, want_rating)))
-    if view["clean"] != obj.clean_vector():
+        elif sel != "2" and not named:
+            vio.append(violation(PROP, "b", "rating-differs:%s:%s" % (sel[0], lab.split()[0]),
+                                 "%s printed without its rating %r: %r [vector=%r]" % (lab, want_rating, " ".join(toks), vector[:80])))
+    if not vector_token_ok(view["clean"], obj.clean_vector()):
         vio.append(violation(PROP, "b", "cleaned-vector-differs:%s" % sel[0],
                              "Cleaned vector printed as %r, library says %r" % (view["clean"], obj.clean_vector())))
-    if view["rh"] != obj.rh_vector():
+    if not vector_token_ok(view["rh"], obj.rh_vector()):
         vio.append(violation(PROP, "b", "rh-vector-differs:%s" % sel[0],
                              "Red Hat vector printed as %r, library says %r" % (view["rh"], obj.rh_vector())))
     if case["flags"]["j"]:
